@@ -14,6 +14,9 @@ const ibcgo = "github.com/cosmos/ibc-go/v11/"
 
 // envNoop reports functions of ibc-go that only emit events / telemetry / logs.
 func envNoop(name string, fn *ssa.Function) bool {
+	if strings.HasPrefix(name, "github.com/cosmos/cosmos-sdk/telemetry.") || strings.HasPrefix(name, "github.com/hashicorp/go-metrics.") {
+		return true
+	}
 	if !strings.HasPrefix(name, ibcgo) && !strings.HasPrefix(name, "(*"+ibcgo) && !strings.HasPrefix(name, "("+ibcgo) {
 		return false
 	}
